@@ -1,6 +1,13 @@
 (** L8: std read_until/read_line over any chunk schedule equals reading the flat bytes (C12, C08). *)
 Require Import CF.Proofs.Tac CF.Model.Text CF.Model.Records CF.Model.Reader.
 
+Lemma strip_eol_rev l : strip_eol l =
+  match rev l with
+  | x :: r => if x =? LF then match r with y :: r' => if y =? CR then rev r' else rev r | [] => [] end else l
+  | [] => l
+  end.
+Proof. unfold strip_eol, rev'. rewrite <- !rev_alt. destruct (rev l) as [|x [|y r']]; try reflexivity; rewrite <- ?rev_alt; reflexivity. Qed.
+
 (** ---------- take_line ---------- *)
 Lemma take_line_split c : let '(t, rest, found) := take_line c in
   c = t ++ rest /\ (found = false -> rest = [] /\ ~ In LF c) /\
@@ -184,7 +191,7 @@ Proof.
     destruct (negb (utf8_valid (t0 ++ [LF]))); [discriminate|].
     destruct (t0 ++ [LF]) eqn:E; [destruct t0; discriminate|]. rewrite <- E in *. intros [= <- <- <-]. cbn [pending future].
     exists (t0 ++ [LF]). split; [exact Hb|]. split; [reflexivity|]. split; [reflexivity|]. split; [reflexivity|].
-    unfold strip_eol. rewrite rev_app_distr. cbn [rev app]. rewrite N.eqb_refl.
+    rewrite strip_eol_rev. rewrite rev_app_distr. cbn [rev app]. rewrite N.eqb_refl.
     destruct (rev t0) as [|y r'] eqn:Er.
     + assert (t0 = []) by (apply (f_equal (@rev N)) in Er; rewrite rev_involutive in Er; exact Er). subst t0.
       split; [right; left; reflexivity|exact Hn0].
@@ -199,7 +206,7 @@ Proof.
     intros [= <- <- <-]. cbn [pending future]. exists b. rewrite app_nil_r. split; [reflexivity|]. split; [reflexivity|].
     split; [reflexivity|]. split; [reflexivity|].
     assert (strip_eol b = b) as ->.
-    { unfold strip_eol. destruct (rev b) as [|y r] eqn:Er; [reflexivity|].
+    { rewrite strip_eol_rev. destruct (rev b) as [|y r] eqn:Er; [reflexivity|].
       assert (In y b) by (apply in_rev; rewrite Er; left; reflexivity).
       destruct (y =? LF) eqn:Ey; [|reflexivity]. apply N.eqb_eq in Ey. subst y. contradiction. }
     split; [right; right; split; reflexivity|exact Hn0].
